@@ -1,2 +1,2 @@
-import sys; sys.path.insert(0,'/tmp/fixes'); from edit import rep
+import sys; sys.path.insert(0,'/verif/tools'); from edit import rep
 rep('segno/writers.py', "        maxval = max(chain(stroke_color, bg_color))\n", "        maxval = 255\n")
